@@ -111,6 +111,14 @@ Proof.
   rewrite app_nil_r, Nat.mul_0_r. cbn [N.of_nat]. rewrite N.pow_0_r, N.div_1_r, Z.abs_eq by lia. reflexivity.
 Qed.
 
+Lemma export_count_le1 s v : (0 < s)%nat -> (sizeinbase2 v <= 8 * Z.of_nat s)%Z -> (export_count s v <= 1)%nat.
+Proof.
+  intros Hs Hb. unfold export_count. destruct (Z.eqb_spec v 0); [lia|].
+  pose proof (sizeinbase2_pos v).
+  replace ((sizeinbase2 v + 8 * Z.of_nat s - 1) / (8 * Z.of_nat s))%Z with 1%Z; [lia|].
+  apply Z.div_unique with (r := (sizeinbase2 v - 1)%Z); lia.
+Qed.
+
 Lemma export_bytes_zero s : export_bytes s 0 = [].
 Proof. reflexivity. Qed.
 
@@ -260,7 +268,8 @@ Proof.
   unfold verify_core.
   destruct (Z.leb_spec (sizeinbase2 m) (Z.of_nat (mnsize_of m) * 8)); [discriminate|].
   destruct (Nat.leb_spec (mnsize_of m) (md + K0)); [discriminate|].
-  destruct (Z.gtb_spec (sizeinbase2 ((v * v) mod Z.abs m)) (Z.of_nat (mnsize_of m) * 8)); [discriminate|].
+  destruct (Z.gtb_spec (sizeinbase2 ((v * v) mod Z.abs m)) (Z.of_nat (mnsize_of m) * 8)); cbn [orb]; [discriminate|].
+  destruct (Z.eqb_spec ((v * v) mod Z.abs m) 0); [discriminate|].
   assert (P : (0 < Z.abs m)%Z) by (apply mnsize_pos_modulus; assumption).
   pose proof (Z.mod_pos_bound (v * v) (Z.abs m) P).
   assert (length (export_bytes (mnsize_of m) ((v * v) mod Z.abs m)) <= mnsize_of m)%nat by (apply export_fits; lia).
@@ -272,7 +281,7 @@ Qed.
 Definition verify_accepts (m : Z) (heap data : bytes) (v : Z) : Prop :=
   let mn := mnsize_of m in
   let foo := ((v * v) mod Z.abs m)%Z in
-  (Z.of_nat mn * 8 < sizeinbase2 m)%Z /\ (md + K0 < mn)%nat /\ (sizeinbase2 foo <= Z.of_nat mn * 8)%Z /\
+  (Z.of_nat mn * 8 < sizeinbase2 m)%Z /\ (md + K0 < mn)%nat /\ (sizeinbase2 foo <= Z.of_nat mn * 8)%Z /\ foo <> 0%Z /\
   let yy := buffer_after heap (export_bytes mn foo) in
   let w := firstn md yy in
   let g12 := tmcg_g H1 H2 (mn - md) w in
@@ -286,31 +295,27 @@ Proof.
   unfold verify_core, verify_accepts. cbv zeta.
   destruct (Z.leb_spec (sizeinbase2 m) (Z.of_nat (mnsize_of m) * 8)); [intros _; split; [discriminate|lia]|].
   destruct (Nat.leb_spec (mnsize_of m) (md + K0)); [intros _; split; [discriminate|lia]|].
-  destruct (Z.gtb_spec (sizeinbase2 ((v * v) mod Z.abs m)) (Z.of_nat (mnsize_of m) * 8)); [intros _; split; [discriminate|lia]|].
+  destruct (Z.gtb_spec (sizeinbase2 ((v * v) mod Z.abs m)) (Z.of_nat (mnsize_of m) * 8)); cbn [orb]; [intros _; split; [discriminate|lia]|].
+  destruct (Z.eqb_spec ((v * v) mod Z.abs m) 0); [intros _; split; [discriminate|intros (_ & _ & _ & N & _); contradiction]|].
   destruct (Nat.ltb_spec (mnsize_of m + slack) (length (export_bytes (mnsize_of m) ((v * v) mod Z.abs m)))); [intros NO; contradiction|].
   intros _. unfold prab_test.
   match goal with |- context [bytes_eqb ?a ?b && bytes_eqb ?c ?d] =>
     pose proof (bytes_eqb_eq a b) as E1; pose proof (bytes_eqb_eq c d) as E2;
     destruct (bytes_eqb a b), (bytes_eqb c d) end; cbn [andb].
-  - split; [intros _|reflexivity]. repeat split; try lia; [apply E1|apply E2]; reflexivity.
-  - split; [discriminate|]. intros (_ & _ & _ & _ & B). apply E2 in B. discriminate.
-  - split; [discriminate|]. intros (_ & _ & _ & A & _). apply E1 in A. discriminate.
-  - split; [discriminate|]. intros (_ & _ & _ & A & _). apply E1 in A. discriminate.
+  - split; [intros _|reflexivity]. repeat split; try lia; try assumption; [apply E1|apply E2]; reflexivity.
+  - split; [discriminate|]. intros (_ & _ & _ & _ & _ & B). apply E2 in B. discriminate.
+  - split; [discriminate|]. intros (_ & _ & _ & _ & A & _). apply E1 in A. discriminate.
+  - split; [discriminate|]. intros (_ & _ & _ & _ & A & _). apply E1 in A. discriminate.
 Qed.
 
-(* a value whose square is zero leaves the buffer untouched: whatever a previous accepted verification of the same
-   data left there is accepted again *)
-Theorem stale_buffer_forgery m heap data v :
-  verify_core H1 H2 m heap data v = Accept ->
-  let heap' := buffer_after heap (export_bytes (mnsize_of m) ((v * v) mod Z.abs m)) in
-  verify_core H1 H2 m heap' data 0 = Accept.
+(* fix 5f58cf8: a value whose square is zero (0, m, any multiple of a root of zero) is refused before the export, so the
+   uninitialised buffer is never read *)
+Theorem verify_core_zero_square m heap data v :
+  ((v * v) mod Z.abs m = 0)%Z -> verify_core H1 H2 m heap data v = Reject.
 Proof.
-  intros A heap'. apply verify_core_accept_iff in A. apply verify_core_accept_iff.
-  unfold verify_accepts in *. cbv zeta in *. destruct A as (A1 & A2 & A3 & A4 & A5).
-  assert (P : (0 < Z.abs m)%Z) by (apply mnsize_pos_modulus; assumption).
-  rewrite Z.mul_0_l, Z.mod_0_l by lia. rewrite export_bytes_zero.
-  unfold buffer_after at 1 3 5. cbn [app length skipn].
-  repeat split; try assumption. cbn. lia.
+  intros E. unfold verify_core. rewrite E.
+  destruct (_ <=? _)%Z; [reflexivity|]. destruct (_ <=? _)%nat; [reflexivity|].
+  rewrite Z.eqb_refl, orb_true_r. reflexivity.
 Qed.
 
 (* ---- the padded value parses back ------------------------------------------------------------------ *)
@@ -390,12 +395,42 @@ Proof.
   rewrite Hs.
   assert (SB : (sizeinbase2 (be2z (prab_bytes m data r)) <= Z.of_nat (mnsize_of m) * 8)%Z).
   { apply sizeinbase2_le; try lia. replace (Z.of_nat (mnsize_of m) * 8)%Z with (8 * Z.of_nat (mnsize_of m))%Z by lia. lia. }
-  destruct (Z.gtb_spec (sizeinbase2 (be2z (prab_bytes m data r))) (Z.of_nat (mnsize_of m) * 8)); [lia|].
+  destruct (Z.gtb_spec (sizeinbase2 (be2z (prab_bytes m data r))) (Z.of_nat (mnsize_of m) * 8)); cbn [orb]; [lia|].
+  destruct (Z.eqb_spec (be2z (prab_bytes m data r)) 0); [contradiction|].
   assert (EX : export_bytes (mnsize_of m) (be2z (prab_bytes m data r)) = prab_bytes m data r).
   { rewrite <- Ly. apply export_be2z; try assumption; lia. }
   rewrite EX.
   destruct (Nat.ltb_spec (mnsize_of m + slack) (length (prab_bytes m data r))); [lia|].
   unfold buffer_after. rewrite prab_roundtrip by assumption. reflexivity.
+Qed.
+
+(* the verdict does not depend on what the uninitialised buffer held *)
+Lemma prab_test_rest mn data l rest rest' : length l = mn -> (md + K0 < mn)%nat ->
+  prab_test H1 H2 mn data (l ++ rest) = prab_test H1 H2 mn data (l ++ rest').
+Proof.
+  intros L Hm.
+  assert (D : l = firstn md l ++ firstn K0 (skipn md l) ++ skipn K0 (skipn md l)).
+  { rewrite (firstn_skipn K0 (skipn md l)). symmetry. apply firstn_skipn. }
+  rewrite D, <- !app_assoc.
+  rewrite !prab_test_parts; try reflexivity;
+    rewrite ?firstn_length, ?skipn_length, ?firstn_length, ?skipn_length; lia.
+Qed.
+
+Theorem verify_core_heap_irrelevant m heap heap' data v :
+  verify_core H1 H2 m heap data v = verify_core H1 H2 m heap' data v.
+Proof.
+  unfold verify_core.
+  destruct (Z.leb_spec (sizeinbase2 m) (Z.of_nat (mnsize_of m) * 8)); [reflexivity|].
+  destruct (Nat.leb_spec (mnsize_of m) (md + K0)); [reflexivity|].
+  destruct (Z.gtb_spec (sizeinbase2 ((v * v) mod Z.abs m)) (Z.of_nat (mnsize_of m) * 8)); cbn [orb]; [reflexivity|].
+  destruct (Z.eqb_spec ((v * v) mod Z.abs m) 0); [reflexivity|].
+  assert (P : (0 < Z.abs m)%Z) by (apply mnsize_pos_modulus; assumption).
+  pose proof (Z.mod_pos_bound (v * v) (Z.abs m) P).
+  assert (L : length (export_bytes (mnsize_of m) ((v * v) mod Z.abs m)) = mnsize_of m).
+  { rewrite export_bytes_length, export_count_one; lia. }
+  destruct (_ <? _)%nat; [reflexivity|].
+  unfold buffer_after. rewrite (prab_test_rest _ data _ _ (skipn (length (export_bytes (mnsize_of m) ((v * v) mod Z.abs m))) heap') L) by lia.
+  reflexivity.
 Qed.
 
 (* ---- text framing ------------------------------------------------------------------------------------- *)
@@ -583,24 +618,14 @@ Qed.
 Definition spurious_free (s : nat) (rho : Z) : Prop :=
   (0 < rho)%Z /\ forall heap, saep_open s (buffer_after heap (export_bytes s rho)) = None.
 
-Lemma export_count_two s v : (0 < s)%nat -> (sizeinbase2 v / 8 <= Z.of_nat s)%Z -> (export_count s v <= 2)%nat.
-Proof.
-  intros Hs Hb. unfold export_count. destruct (Z.eqb_spec v 0); [lia|].
-  pose proof (sizeinbase2_pos v).
-  set (q := ((sizeinbase2 v + 8 * Z.of_nat s - 1) / (8 * Z.of_nat s))%Z).
-  assert (B : (sizeinbase2 v <= 8 * Z.of_nat s + 7)%Z).
-  { pose proof (Z.div_mod (sizeinbase2 v) 8). pose proof (Z.mod_pos_bound (sizeinbase2 v) 8). lia. }
-  assert (q < 3)%Z by (apply Z.div_lt_upper_bound; lia).
-  assert (0 <= q)%Z by (apply Z.div_pos; lia). lia.
-Qed.
-
-Lemma try_roots_step s heap rho rest : (0 < s)%nat -> (s <= slack)%nat -> spurious_free s rho ->
+Lemma try_roots_step s heap rho rest : spurious_free s rho ->
   exists heap', try_roots H1 H2 s heap (rho :: rest) = try_roots H1 H2 s heap' rest.
 Proof.
-  intros Hs Hsl [Hp SF]. cbn [try_roots].
-  destruct (Z.leb_spec (sizeinbase2 rho / 8) (Z.of_nat s)); [|exists heap; reflexivity].
-  pose proof (export_count_two s rho Hs H) as C. pose proof (export_bytes_length s rho) as L.
-  destruct (Nat.ltb_spec (s + slack) (length (export_bytes s rho))); [nia|].
+  intros [Hp SF]. cbn [try_roots].
+  destruct (Z.leb_spec (sizeinbase2 rho) (Z.of_nat s * 8)); [|exists heap; reflexivity].
+  assert (Hs : (0 < s)%nat) by (pose proof (sizeinbase2_pos rho); lia).
+  assert (length (export_bytes s rho) <= s)%nat by (apply export_fits; lia).
+  destruct (Nat.ltb_spec (s + slack) (length (export_bytes s rho))); [lia|].
   specialize (SF heap). unfold saep_open in SF. cbv zeta in SF.
   destruct (all_zero _); [discriminate|]. eexists; reflexivity.
 Qed.
@@ -612,23 +637,22 @@ Proof.
   intros Hs Ly By NZ Op. cbn [try_roots].
   pose proof (be2z_range yy By) as R. rewrite Ly in R.
   assert (SB : (sizeinbase2 (be2z yy) <= 8 * Z.of_nat s)%Z) by (apply sizeinbase2_le; lia).
-  destruct (Z.leb_spec (sizeinbase2 (be2z yy) / 8) (Z.of_nat s)).
-  2:{ assert (sizeinbase2 (be2z yy) / 8 <= Z.of_nat s)%Z by (apply Z.div_le_upper_bound; lia). lia. }
+  destruct (Z.leb_spec (sizeinbase2 (be2z yy)) (Z.of_nat s * 8)); [|lia].
   assert (EX : export_bytes s (be2z yy) = yy) by (rewrite <- Ly; apply export_be2z; try assumption; lia).
   rewrite EX. destruct (Nat.ltb_spec (s + slack) (length yy)); [lia|].
   unfold buffer_after. specialize (Op (skipn (length yy) heap)). unfold saep_open in Op. cbv zeta in Op.
   destruct (all_zero _); [|discriminate]. inversion Op. reflexivity.
 Qed.
 
-Lemma try_roots_prefix s yy value : (0 < s)%nat -> (s <= slack)%nat -> length yy = s -> Forall byte yy -> be2z yy <> 0%Z ->
+Lemma try_roots_prefix s yy value : (0 < s)%nat -> length yy = s -> Forall byte yy -> be2z yy <> 0%Z ->
   (forall tl, saep_open s (yy ++ tl) = Some value) ->
   forall pre post heap, Forall (spurious_free s) pre ->
   try_roots H1 H2 s heap (pre ++ be2z yy :: post) = DecValue value.
 Proof.
-  intros Hs Hsl Ly By NZ Op pre. induction pre as [|rho pre IH]; intros post heap F.
+  intros Hs Ly By NZ Op pre. induction pre as [|rho pre IH]; intros post heap F.
   - apply try_roots_hit; assumption.
   - apply Forall_cons_iff in F. destruct F as [Hrho Hpre]. cbn [app].
-    destruct (try_roots_step s heap rho (pre ++ be2z yy :: post) Hs Hsl Hrho) as [heap' ->]. apply IH. assumption.
+    destruct (try_roots_step s heap rho (pre ++ be2z yy :: post) Hrho) as [heap' ->]. apply IH. assumption.
 Qed.
 
 Lemma decrypt_text_enc_text m ksig heap kid v :
@@ -640,9 +664,9 @@ Proof.
   unfold decrypt_text, enc_text. rewrite OK. cbn [negb]. rewrite P1, P2, KM. cbn [negb]. rewrite P3, base62_roundtrip. reflexivity.
 Qed.
 
-(* SAEP round trip for moduli up to 8199 bits (mnsize <= 1024): see decrypt_overflow for larger ones *)
-Theorem encrypt_decrypt_ok_partial m ksig value coins t :
-  kid_ok ksig -> (mnsize_of m <= slack)%nat ->
+(* SAEP round trip, every modulus size that passes the padding-size tests *)
+Theorem encrypt_decrypt_ok m ksig value coins t :
+  kid_ok ksig ->
   length value = S0 -> Forall byte value -> (mnsize_of m - 2 * S0 <= length coins)%nat -> Forall byte coins ->
   encrypt_text H1 H2 m ksig value coins = Some t ->
   let x := saep_pad H1 H2 m value coins in
@@ -651,7 +675,7 @@ Theorem encrypt_decrypt_ok_partial m ksig value coins t :
   (exists pre post, roots c = pre ++ x :: post /\ Forall (spurious_free (mnsize_of m)) pre) ->
   forall heap, decrypt_text H1 H2 qr roots m ksig heap t = DecValue value.
 Proof.
-  intros [Fk KM] Hsl Lv Bv Lc Bc E x c NZ Q (pre & post & Rt & SF) heap.
+  intros [Fk KM] Lv Bv Lc Bc E x c NZ Q (pre & post & Rt & SF) heap.
   unfold encrypt_text in E. destruct (saep_sizes_ok m) eqn:OK; [|discriminate]. inversion E; subst t. clear E.
   fold x. fold c. rewrite decrypt_text_enc_text by assumption. rewrite Q, Rt.
   destruct (saep_bytes_props m value coins OK Lv Bv Lc Bc) as (Ly & By & Op).
@@ -660,18 +684,24 @@ Proof.
   apply try_roots_prefix; auto. lia.
 Qed.
 
-(* the export buffer of decrypt is too small for moduli above 8199 bits: a root with more than 8*mnsize bits
-   is written as two words (no counterpart of fix b19627f here) *)
-Theorem decrypt_overflow : exists s root heap,
-  (sizeinbase2 root / 8 <= Z.of_nat s)%Z /\ try_roots H1 H2 s heap [root] = DecOverflow.
+(* export_fits for decrypt (fix 288af9c), every size: only roots of at most 8*rabin_s bits are exported, i.e. at most one word *)
+Theorem try_roots_no_overflow s : forall rs heap, try_roots H1 H2 s heap rs <> DecOverflow.
 Proof.
-  exists (Z.to_nat 1025), (2 ^ 8200)%Z, []. split; [vm_compute; discriminate|].
-  cbn [try_roots].
-  replace (sizeinbase2 (2 ^ 8200) / 8 <=? Z.of_nat (Z.to_nat 1025))%Z with true by (vm_compute; reflexivity).
-  rewrite export_bytes_length.
-  replace (export_count (Z.to_nat 1025) (2 ^ 8200)) with 2%nat by (vm_compute; reflexivity).
-  replace (Z.to_nat 1025 + slack <? 2 * Z.to_nat 1025)%nat with true by (vm_compute; reflexivity).
-  reflexivity.
+  induction rs as [|root rest IH]; intros heap; cbn [try_roots]; [discriminate|].
+  destruct (Z.leb_spec (sizeinbase2 root) (Z.of_nat s * 8)); [|apply IH].
+  assert (Hs : (0 < s)%nat) by (pose proof (sizeinbase2_pos root); lia).
+  assert (length (export_bytes s root) <= s)%nat.
+  { rewrite export_bytes_length. pose proof (export_count_le1 s root Hs). nia. }
+  destruct (Nat.ltb_spec (s + slack) (length (export_bytes s root))); [lia|].
+  destruct (all_zero _); [discriminate|apply IH].
+Qed.
+
+Theorem decrypt_text_no_overflow m ksig heap t : decrypt_text H1 H2 qr roots m ksig heap t <> DecOverflow.
+Proof.
+  unfold decrypt_text.
+  destruct (negb _); [discriminate|]. destruct (cm _ _ _); [|discriminate]. destruct (split_at _ _) as [[? ?]|]; [|discriminate].
+  destruct (negb _); [discriminate|]. destruct (split_at _ _) as [[? ?]|]; [|discriminate]. destruct (decode62 _); [|discriminate].
+  destruct (qr _); [apply try_roots_no_overflow|discriminate].
 Qed.
 
 (* ---- key validation ------------------------------------------------------------------------------------------ *)
